@@ -1,6 +1,7 @@
 package props
 
 import (
+	"math"
 	"fmt"
 	"strings"
 	"testing"
@@ -70,7 +71,9 @@ func minimalText(e lang.Expr) string {
 			b.WriteByte(')')
 		case lang.Binary:
 			l := opLevel[x.Op]
-			wrap(x.L, exprLevel(x.L) < l)
+			// "} /" would start a regexp: a left operand that ends in a hash literal is parenthesised
+			endsInBrace := x.Op == "/" && strings.HasSuffix(strings.TrimSpace(minimalText(x.L)), "}")
+			wrap(x.L, exprLevel(x.L) < l || endsInBrace)
 			b.WriteString(" " + x.Op + " ")
 			wrap(x.R, exprLevel(x.R) <= l)
 		case lang.Unary:
@@ -102,6 +105,9 @@ func minimalText(e lang.Expr) string {
 			wrap(x.A, exprLevel(x.A) <= lvlTernary)
 			b.WriteString(" : ")
 			wrap(x.B, exprLevel(x.B) <= lvlTernary)
+		case lang.ArrayLit, lang.HashLit:
+			// container literals are atoms; their members are printed in full
+			b.WriteString(lang.ExprText(x))
 		default:
 			panic(fmt.Sprintf("minimalText: %T", e))
 		}
@@ -268,6 +274,18 @@ func TestC12Pairs(t *testing.T) {
 // random trees
 func c12Tree(rt *rapid.T, depth int, ternaryOK bool) lang.Expr {
 	if depth <= 0 || gen.Uniform(rt, "leaf", 4) == 0 {
+		switch gen.Uniform(rt, "oddleaf", 12) {
+		case 0:
+			// floats: grouping shows in the last digit (0.1 + 0.2 + 0.3)
+			return lang.Name{N: rapid.SampledFrom([]string{"p", "q", "r", "big", "top"}).Draw(rt, "fid")}
+		case 1:
+			// container literals as operands: what follows the closing bracket
+			// or brace belongs to the literal
+			if rapid.Bool().Draw(rt, "hashleaf") {
+				return lang.HashLit{Keys: []lang.Expr{lang.Lit{V: lang.Str("k")}, lang.Lit{V: lang.Str("name")}, lang.Lit{V: lang.Int(1)}}, Vals: []lang.Expr{lang.Lit{V: lang.Int(5)}, lang.Lit{V: lang.Int(7)}, lang.Lit{V: lang.Int(9)}}}
+			}
+			return lang.ArrayLit{Elems: []lang.Expr{lang.Lit{V: lang.Int(4)}, lang.Lit{V: lang.Int(6)}}}
+		}
 		if gen.Uniform(rt, "intleaf", 3) == 0 {
 			return lang.Lit{V: lang.Int(rapid.Int64Range(0, 9).Draw(rt, "n"))}
 		}
@@ -358,7 +376,8 @@ func countOps(e lang.Expr, levels map[int]bool) int {
 func TestC12Trees(t *testing.T) {
 	defer silenceAs("trees")()
 	col := evid.New("C12", "trees", "")
-	vars := map[string]lang.Value{"a": lang.Int(2), "b": lang.Int(3), "c": lang.Int(5), "d": lang.Int(7), "e": lang.Int(11)}
+	vars := map[string]lang.Value{"a": lang.Int(2), "b": lang.Int(3), "c": lang.Int(5), "d": lang.Int(7), "e": lang.Int(11),
+		"p": lang.Float(0.1), "q": lang.Float(0.2), "r": lang.Float(0.3), "big": lang.Float(1e16), "top": lang.Int(math.MaxInt64)}
 	rapidCheck(t, col, func(rt *rapid.T) {
 		tree := c12Tree(rt, rapid.IntRange(2, scale(5, 6)).Draw(rt, "depth"), true)
 		if gen.Uniform(rt, "consttree", 4) == 0 {
@@ -370,8 +389,14 @@ func TestC12Trees(t *testing.T) {
 		minimal := minimalText(tree)
 		full := lang.ExprText(tree)
 		redundant := minimalText(addParens(rt, tree))
-		want := shapeText(tree)
+		want := minimal
+		if !hasContainerLiteral(tree) {
+			want = shapeText(tree)
+		}
 		for _, txt := range []string{minimal, redundant, full} {
+			if hasContainerLiteral(tree) {
+				break // the printed shape of container literals is not modelled; their meaning is (below)
+			}
 			sc := &ShapeCase{Prop: "C12", Kind: "shape", Text: txt, Shape: want}
 			if err := runShape(sc); err != nil {
 				sc.Msg = err.Error()
@@ -514,4 +539,30 @@ func TestC12Nested(t *testing.T) {
 		}
 		col.Case(text, true, func() interface{} { return map[string]string{"must_be_rejected": text} })
 	})
+}
+
+func hasContainerLiteral(e lang.Expr) bool {
+	switch x := e.(type) {
+	case lang.ArrayLit, lang.HashLit:
+		return true
+	case lang.Paren:
+		return hasContainerLiteral(x.X)
+	case lang.Binary:
+		return hasContainerLiteral(x.L) || hasContainerLiteral(x.R)
+	case lang.Unary:
+		return hasContainerLiteral(x.X)
+	case lang.Index:
+		return hasContainerLiteral(x.X) || hasContainerLiteral(x.I)
+	case lang.Dot:
+		return hasContainerLiteral(x.X)
+	case lang.Ternary:
+		return hasContainerLiteral(x.C) || hasContainerLiteral(x.A) || hasContainerLiteral(x.B)
+	case lang.Call:
+		for _, a := range x.Args {
+			if hasContainerLiteral(a) {
+				return true
+			}
+		}
+	}
+	return false
 }
